@@ -254,4 +254,7 @@ pub fn run(ctx: &mut Ctx) {
         }
     });
     ctx.require(&r, &["len28", "len29", "len30", "len31"]);
+
+    // hidden state behind last_day_of_month: alternation of every date with two February anchors
+    crate::history::alternating_with_anchor(ctx, "C09", crate::history::Family::Accessors);
 }
